@@ -198,7 +198,8 @@ class Device(object):
         self.all_streams.append(s)
         if dest in (self.cfg.get('reject_open') or ()):
             del self.streams[remote]
-            self.enqueue(s.q, Packet(b'CLSE', 0, s.local))
+            for d in (self.cfg.get('reject_delays') or (0.0,)):       # the refusal may be late and may be repeated (a duplicate CLSE is legal)
+                self.enqueue(s.q, Packet(b'CLSE', 0, s.local), d)
             s.dev_closed = True
             return
         self.enqueue(s.q, Packet(b'OKAY', remote, s.local), (self.cfg.get('open_delay') or {}).get(dest, 0.0))
